@@ -243,12 +243,11 @@ def fits(spec, ops, ref, alt):
     from transforge import type as T
     alt = alt.follow()
     if isinstance(alt, T.TypeVariable):
-        if alt.lower or alt.upper:
-            if ref[1] and ref[0] not in (G.TOP, G.BOT):
-                return False
-            lo = (I.op_index(alt.lower, ops), ()) if alt.lower else None
-            hi = (I.op_index(alt.upper, ops), ()) if alt.upper else None
-            return (lo is None or ref_sub(spec, lo, ref) or ref[0] == G.BOT) and (hi is None or ref_sub(spec, ref, hi))
+        # an unresolved variable as (part of) an alternative: the reference fits when SOME type within the variable's bounds is above it;
+        # a lower bound never prevents that (Top is above everything), an upper bound must itself be above the reference
+        if alt.upper:
+            hi = (I.op_index(alt.upper, ops), ())
+            return ref_sub(spec, ref, hi)
         return True
     ao = I.op_index(alt.operator, ops)
     if ref[0] == G.BOT or ao == G.TOP:
